@@ -104,6 +104,7 @@ class MultiHash:
         ret = cls([])
         ret.state = state
         ret.track_length = track_length
+        return ret
 
     @classmethod
     def from_file(cls, fobj, hash_names=DEFAULT_ALGORITHMS, length=None):
